@@ -60,7 +60,18 @@ def _post(testname):
             bad("history_length", {"len_x": len(x), "shape": list(h.shape)})
             return
         if np.any(np.isnan(h)):
-            bad("nan_history", {"history": h, "x": x})
+            kind = "nan_history"
+            if testname in ("alpha_mart", "wald_sprt") and math.isfinite(N) and k.get("rtol", None) == 0:
+                # mechanism of open finding KF-29 (DESIGN 7.2 #29): a 0/0 factor where mu_j == u exactly and x_j == u is
+                # masked at its own index, but the cumulative product carries the NaN on; with the caller's rtol = 0 the
+                # following indices (mu within rounding of u, not equal) are not masked
+                S_ = np.insert(np.cumsum(x), 0, 0)[0:-1]
+                m_ = (N * self.t - S_) / (N - np.arange(1, len(x) + 1) + 1)
+                j0 = np.flatnonzero((m_ == u) & (x == u))
+                first_nan = int(np.flatnonzero(np.isnan(h))[0])
+                if len(j0) and first_nan > int(j0[0]) and abs(m_[first_nan] - u) <= 4 * np.finfo(float).eps * u:
+                    kind = "nan_history:after_a_0_over_0_factor_at_mu_equal_u:rtol_0_leaves_the_next_index_unmasked"
+            bad(kind, {"history": h, "x": x})
         elif np.any(h < 0):
             bad("negative_history", {"history": h, "x": x})
         elif np.any(h > 1):
@@ -104,6 +115,13 @@ def run_shard(spec, rec):
         suite.run_suite("checks.c11", rec)
         return
     rng = random.Random(f"c11-{spec['seed']}-{spec['shard']}")
+    if spec["shard"] == 0:
+        # the pinned witness of open finding KF-29 (so that every run observes it and reports it as KNOWN-FINDING)
+        rec.count("pinned_witness_of_open_finding_KF-29")
+        run_case({"cfg": {"test": "wald_sprt", "estim": None, "bet": None, "u": 0.8333333333333334, "N": 6, "t": 0.625,
+                          "random_order": True, "kw": {}, "default_eta": True},
+                  "x": [0.625, 0.0, 0.625, 0.8333333333333334, 0.625, 0.625], "stratum": "pinned:KF-29",
+                  "test_kwargs": {"atol": 0, "rtol": 0}}, rec)
     for i in range(spec["n"]):
         combo = nn.COMBOS[i % len(nn.COMBOS)]
         if i % 50 == 48:
